@@ -331,7 +331,7 @@ def sanitizer(ctx, insts, rankone, quick):
         lines.append("P %d %d %s %s %s" % (A.shape[0], A.shape[1], " ".join(f"{z.real} {z.imag}" for z in A.ravel()),
                                              " ".join(map(str, r["rows"])), " ".join(map(str, r["cols"]))))
     env = dict(os.environ, ASAN_OPTIONS="detect_leaks=0", UBSAN_OPTIONS="print_stacktrace=0:halt_on_error=0")
-    p = subprocess.run([str(VERIF / "native" / "build" / "vf_san")], input="\n".join(lines) + "\n", capture_output=True, text=True, env=env, timeout=1200)
+    p = subprocess.run([str(NV.build_dir() / "vf_san")], input="\n".join(lines) + "\n", capture_output=True, text=True, env=env, timeout=1200)
     reports = re.findall(r"(\S+:\d+:\d+): runtime error: ([^\n]+)", p.stderr)
     asan = re.findall(r"ERROR: AddressSanitizer: ([^\n]+)", p.stderr)
     ctx.notes["sanitizer"] = {"inputs": len(lines), "ubsan_reports": len(reports), "asan_reports": len(asan)}
